@@ -24,6 +24,17 @@
 //   cs    lower | upper | mixed (>= 1 upper and 1 lower letter forced into the trace id)
 //   both b3 and X-B3-* present: the multi headers carry DIFFERENT ids
 //   caller context: empty | marker only | marker + a valid local span (rotates with the instance)
+//
+// Tail family (cases with "k":"t", spec section "short / truncated / separator-free header values"): the
+// header value arrives as TOKENS, one per byte.  token -> bytes is the table token_of() read backwards: hex
+// digits, '-', ':', '%' are one byte each, 41 = {SP, HT}, 43 = the other 229 byte values - every byte value
+// has exactly one token.  The position the spec replaced ("pos") and every position holding a class token
+// are expanded to ALL byte values of the class (one execution per value).  Every execution hands the value
+// over as a string_view into an EXACTLY-SIZED heap block (no terminator, no slack; the empty value is a
+// zero-length view at the end of a block) - and is repeated with the value FOLLOWED inside the same buffer
+// by what the truncated form goes on with ("rest") or by adversarial bytes (tails of %3A / %2D escapes,
+// separators, hex digits), with and without a final NUL: the two observations must be identical (a result
+// that depends on bytes behind the view is an out-of-bounds read) and both must satisfy TLC's expectation.
 #include <algorithm>
 
 #include "c09_carrier.h"
@@ -457,6 +468,8 @@ static int token_of(unsigned char c)
     return 41;
   if (c == ':')
     return 44;
+  if (c == '%')
+    return 42;
   return 43;
 }
 static json hdr_event(const std::string *v)
@@ -667,9 +680,327 @@ static int record(uint64_t seed, long n)
   }, [](size_t ii) { return long(ii); }, 12);
 }
 
+// ---- the tail family: token-level header values, every byte value of a class, exact-size views --------------
+// the byte values of a token's class = { b : token_of(b) == tok }
+static const std::vector<std::vector<unsigned char>> &token_classes()
+{
+  static std::vector<std::vector<unsigned char>> t;
+  if (t.empty())
+  {
+    t.resize(64);
+    for (unsigned b = 0; b < 256; ++b)
+      t[size_t(token_of((unsigned char)b))].push_back((unsigned char)b);
+  }
+  return t;
+}
+static const std::vector<unsigned char> &class_of(int tok)
+{
+  if (tok < 0 || tok >= 64 || token_classes()[size_t(tok)].empty())
+  {
+    fprintf(stderr, "harness: token %d has no byte\n", tok);
+    exit(9);
+  }
+  return token_classes()[size_t(tok)];
+}
+
+// A carrier whose Get() returns views into heap blocks that end EXACTLY where the value ends (mode 0), or
+// that go on with `behind` (+ NUL in mode 1) inside the same block.  An absent header is a zero-length view
+// at the end of a block.
+class ViewCarrier : public opentelemetry::context::propagation::TextMapCarrier
+{
+public:
+  struct Item
+  {
+    std::string key, val, behind;
+    int mode;
+  };
+  ~ViewCarrier() override { Release(); }
+  void Put(const std::string &key, const std::string &val, int mode = 0, const std::string &behind = "")
+  {
+    items_.push_back(Item{lower(key), val, behind, mode});
+  }
+  opentelemetry::nostd::string_view Get(opentelemetry::nostd::string_view key) const noexcept override
+  {
+    std::string k = lower(std::string(key.data(), key.size()));
+    const Item *it = nullptr;
+    for (auto &i : items_)
+      if (i.key == k)
+        it = &i;
+    size_t n = it ? it->val.size() : 0;
+    if (!it || it->mode == 0)
+    {
+      if (n == 0)
+      {
+        size_t pad = 1 + (bufs_.size() % 7);
+        char *p    = static_cast<char *>(malloc(pad));
+        memset(p, 'Z', pad);
+        bufs_.emplace_back(p, pad);
+        return opentelemetry::nostd::string_view(p + pad, 0);
+      }
+      char *p = static_cast<char *>(malloc(n));
+      memcpy(p, it->val.data(), n);
+      bufs_.emplace_back(p, n);
+      return opentelemetry::nostd::string_view(p, n);
+    }
+    size_t total = n + it->behind.size() + (it->mode == 1 ? 1 : 0);
+    char *p      = static_cast<char *>(malloc(total ? total : 1));
+    if (n)
+      memcpy(p, it->val.data(), n);
+    if (!it->behind.empty())
+      memcpy(p + n, it->behind.data(), it->behind.size());
+    if (it->mode == 1)
+      p[total - 1] = '\0';
+    bufs_.emplace_back(p, total ? total : 1);
+    return opentelemetry::nostd::string_view(p, n);
+  }
+  void Set(opentelemetry::nostd::string_view, opentelemetry::nostd::string_view) noexcept override {}
+  void Release()
+  {
+    for (auto &b : bufs_)
+    {
+      memset(b.first, 0xDD, b.second);
+      free(b.first);
+    }
+    bufs_.clear();
+  }
+
+private:
+  std::vector<Item> items_;
+  mutable std::vector<std::pair<char *, size_t>> bufs_;
+};
+
+static const char *const kHdrName[] = {"b3", "X-B3-TraceId", "X-B3-SpanId", "X-B3-Sampled", "uber-trace-id"};
+static const char *const kHdrTag[]  = {"b3", "mt", "ms", "mf", "j"};
+
+// what may lie behind a view when the spec gives no continuation: the tails of the separators' URL escapes,
+// the separators, hex digits - followed by a little more of the same alphabet
+static std::string adversarial_behind(Rng &r)
+{
+  static const std::vector<std::string> head = {"3A", "3a", "A", "a", "2D", "2d", "D", "%3A", "%2D", ":", "-", "0", "1",
+                                                "d", "01", "00", "-1", ":1", ":0:01", "-d", "f", "10"};
+  static const std::string more = "0123456789abcdef-:%3AD";
+  std::string s = r.pick(head);
+  for (uint32_t k = r.below(9); k > 0; --k)
+    s += r.pick(more);
+  return s;
+}
+
+struct TailObs
+{
+  Obs o;
+  bool same(const TailObs &b) const
+  {
+    return o.kind == b.o.kind && o.remote == b.o.remote && o.sampled == b.o.sampled && memcmp(o.tid, b.o.tid, 16) == 0 &&
+           memcmp(o.sid, b.o.sid, 8) == 0;
+  }
+};
+
+static bool satisfies_tok(const json &exp, const Obs &o)
+{
+  const std::string k = exp["o"];
+  if (k == "accept")
+  {
+    uint8_t tid[16] = {0}, sid[8] = {0};
+    const json &t = exp["tid"], &s = exp["sid"];
+    if (t.size() != 32 || s.size() != 16)
+    {
+      fprintf(stderr, "harness: accept without 32/16 id digits\n");
+      exit(9);
+    }
+    for (size_t i = 0; i < 16; ++i)
+      tid[i] = uint8_t(t[2 * i].get<int>() * 16 + t[2 * i + 1].get<int>());
+    for (size_t i = 0; i < 8; ++i)
+      sid[i] = uint8_t(s[2 * i].get<int>() * 16 + s[2 * i + 1].get<int>());
+    return o.kind == "valid" && o.remote && memcmp(o.tid, tid, 16) == 0 && memcmp(o.sid, sid, 8) == 0 &&
+           o.sampled == exp["sampled"].get<bool>();
+  }
+  if (k == "reject")
+    return o.kind == "unchanged";
+  if (k == "either")
+    return o.kind == "unchanged" || o.kind == "valid";
+  fprintf(stderr, "harness: unknown outcome %s\n", k.c_str());
+  exit(9);
+}
+
+static std::string json_escaped(const std::string &s)  // esc() output inside a hand-written JSON string
+{
+  std::string o;
+  for (char c : esc(s))
+  {
+    if (c == '\\')
+      o += '\\';
+    o += c;
+  }
+  return o;
+}
+
+// One tail case: all its executions.  Result line as replay_cases' (+ "bytes": byte values run at the
+// replaced position, "execs").
+static json run_tail_case(const json &cs, uint64_t seed)
+{
+  long id          = cs["id"].get<long>();
+  long seed_id     = cs.value("seed_id", id);
+  const json &tl   = cs["tl"];
+  const bool jg    = cs["fmt"] == "jg";
+  const std::string hk = tl["h"];
+  const int swept  = jg ? 4 : hk == "b3" ? 0 : hk == "mt" ? 1 : hk == "ms" ? 2 : 3;
+  const int cut = tl["cut"].get<int>(), pos = tl["pos"].get<int>();
+  const json &car  = cs["car"];
+  std::vector<int> v = car[kHdrTag[swept]]["v"].get<std::vector<int>>();
+  if (int(v.size()) != cut || pos > cut)
+  {
+    fprintf(stderr, "harness: tail case %ld: value has %zu tokens, cut %d, pos %d\n", id, v.size(), cut, pos);
+    exit(9);
+  }
+  Rng r(mix(seed, uint64_t(seed_id), 4242));
+  // the companions (exact bytes; their class tokens, if any, drawn once)
+  std::vector<std::pair<int, std::string>> comp;
+  if (!jg)
+    for (int h = 0; h < 4; ++h)
+      if (h != swept && car[kHdrTag[h]]["p"].get<bool>())
+      {
+        std::string s;
+        for (int t : car[kHdrTag[h]]["v"].get<std::vector<int>>())
+          s += char(r.pick(class_of(t)));
+        comp.emplace_back(h, s);
+      }
+  std::string rest;
+  for (int t : cs["rest"].get<std::vector<int>>())
+    rest += char(class_of(t)[0]);
+  // positions that are expanded: the replaced one and every one holding a class token
+  const int sw = pos > 0 ? cut - pos : -1;
+  size_t runs  = 1;
+  std::vector<size_t> off(v.size(), 0);
+  for (size_t q = 0; q < v.size(); ++q)
+  {
+    size_t n = class_of(v[q]).size();
+    if (n > 1 || int(q) == sw)
+      runs = std::max(runs, n);
+    off[q] = int(q) == sw ? 0 : r.below(uint32_t(n));
+  }
+  json out = {{"id", id}, {"v", "ok"}};
+  const std::string fmt = cs["fmt"];
+  const json &exp       = cs["exp"];
+  size_t execs = 0, bytes = 0;
+  int valid = 0, unchanged = 0;
+  std::vector<bool> seen(256, false);
+  static char cur[1024];
+  for (size_t i = 0; i < runs && out["v"] == "ok"; ++i)
+  {
+    std::string val;
+    for (size_t q = 0; q < v.size(); ++q)
+    {
+      const auto &c = class_of(v[q]);
+      val += char(c[(i + off[q]) % c.size()]);
+    }
+    if (sw >= 0 && !seen[(unsigned char)val[size_t(sw)]])
+    {
+      seen[(unsigned char)val[size_t(sw)]] = true;
+      ++bytes;
+    }
+    // modes: 0 exact; then followed in-buffer by bytes, 1 with / 2 without a final NUL
+    std::vector<int> modes = {0};
+    if (runs <= 2)
+    {
+      modes.push_back(1);
+      modes.push_back(2);
+    }
+    else if ((i + uint64_t(seed_id)) % 3 == 0)  // large classes: every third value (rotating with the case)
+      modes.push_back(1 + int((i / 3 + uint64_t(seed_id)) % 2));
+    TailObs first;
+    for (size_t mi = 0; mi < modes.size(); ++mi)
+    {
+      int mode           = modes[mi];
+      std::string behind = mode == 0 ? "" : (!rest.empty() && (mi + i) % 2 == 1) ? rest : adversarial_behind(r);
+      int callerv        = int((i + uint64_t(seed_id)) % 3);
+      int propi          = int(i + uint64_t(seed_id));
+      snprintf(cur, sizeof cur,
+               "{\"id\":%ld,\"inst\":%zu,\"v\":\"crash\",\"concrete\":{\"header\":\"%s\",\"value\":\"%s\",\"length\":%zu,"
+               "\"buffer\":\"%s\",\"behind\":\"%s\",\"propagator\":\"%s\"}}",
+               id, i, kHdrName[swept], json_escaped(val).c_str(), val.size(),
+               mode == 0 ? "exact size" : mode == 1 ? "value+behind+NUL" : "value+behind", json_escaped(behind).c_str(),
+               jg ? "Jaeger" : propi % 2 == 0 ? "B3Propagator" : "B3PropagatorMultiHeader");
+      current_case() = cur;
+      Rng rc(mix(seed, uint64_t(seed_id), 7 + i));  // the same caller context for every mode of this value
+      Caller caller = make_caller(rc, callerv);
+      std::unique_ptr<Propagator> prop(make_prop(fmt, propi));
+      ViewCarrier vc;
+      vc.Put(kHdrName[swept], val, mode, behind);
+      for (auto &c : comp)
+        vc.Put(kHdrName[c.first], c.second);
+      ctxns::Context in  = caller.ctx;
+      ctxns::Context res = prop->Extract(vc, in);
+      vc.Release();
+      Caller c2 = caller;
+      c2.ctx    = in;
+      TailObs t;
+      t.o = observe(res, c2);
+      ++execs;
+      valid += t.o.kind == "valid";
+      unchanged += t.o.kind == "unchanged";
+      bool ok  = satisfies_tok(exp, t.o);
+      bool dep = mi > 0 && !t.same(first);
+      if (mi == 0)
+        first = t;
+      if (!ok || dep || (execs == 1 && (id & 1023) == 0))
+      {
+        json conc = {{"headers", json::object()}, {"buffer", mode == 0 ? "exact size" : mode == 1 ? "value+behind+NUL" : "value+behind"},
+                     {"behind", esc(behind)}, {"caller", callerv}};
+        conc["headers"][kHdrName[swept]] = esc(val);
+        for (auto &c : comp)
+          conc["headers"][kHdrName[c.first]] = esc(c.second);
+        json ob      = t.o.to_json();
+        ob["sampled"] = t.o.sampled;
+        out["res"]   = {{"ok", ok && !dep}, {"kind", t.o.kind}, {"concrete", conc}, {"observed", ob}};
+        if (dep)
+        {
+          json f0       = first.o.to_json();
+          f0["sampled"] = first.o.sampled;
+          out["res"]["depends_on_bytes_behind_the_view"] = true;
+          out["res"]["observed_with_exact_buffer"]       = f0;
+        }
+        if (!ok || dep)
+        {
+          out["v"]    = "bad";
+          out["inst"] = i;
+          break;
+        }
+      }
+    }
+  }
+  out["n"]         = execs;
+  out["bytes"]     = bytes;
+  out["valid"]     = valid;
+  out["unchanged"] = unchanged;
+  return out;
+}
+
+static int tail_cases(const char *path, uint64_t seed)
+{
+  auto cases = read_cases(path);
+  int rc     = forked_loop(cases.size(), [&](size_t ci) { std::cout << run_tail_case(cases[ci], seed).dump() << std::endl; },
+                       [&](size_t ci) { return cases[ci]["id"].get<long>(); });
+  if (rc != 0)
+    return rc;
+  std::cout << "{\"done\":" << cases.size() << "}" << std::endl;
+  return 0;
+}
+// a case file holds either tail cases only or none
+static bool is_tail_file(const char *path)
+{
+  std::ifstream f(path);
+  std::string ln;
+  while (std::getline(f, ln))
+    if (!ln.empty())
+      return json::parse(ln).value("k", "") == "t";
+  return false;
+}
+
 int main(int argc, char **argv)
 {
   install_death_callback();
+  if (argc >= 5 && std::string(argv[1]) == "replay" && is_tail_file(argv[2]))
+    return tail_cases(argv[2], strtoull(argv[3], nullptr, 10));
   if (argc >= 5 && std::string(argv[1]) == "replay")
     return replay_cases(argv[2], strtoull(argv[3], nullptr, 10), atoi(argv[4]), run_rt, run_x, sweep_site);
   if (argc >= 4 && std::string(argv[1]) == "record")
